@@ -323,6 +323,94 @@ def setup_style(x, w):
       'params': {'w': w}, 'stats': {'c': 1}}
 
 
+DECL_NAMES = ['w', 'a']
+DECL_KINDS = ['param', 'stats', 'cache', 'child']
+
+
+class Decl(nn.Module):
+  """a sequence of declarations in one compact scope"""
+  steps: tuple = ()
+
+  @nn.compact
+  def __call__(self, x):
+    y = x
+    for i, (kind, nm) in enumerate(self.steps):
+      if kind == 'param':
+        y = y + self.param(nm, lambda rng: 10 + i)
+      elif kind == 'child':
+        y = Leaf(name=nm)(y)
+      else:
+        y = y + self.variable(kind, nm, lambda: 20 + i).value
+    return y
+
+
+@with_rng_stub
+def declaration_sequences(k0, n0, k1, n1, k2, n2, x):
+  """three declarations (param / variable of two collections / named child) in one
+  scope: a name may be used once per collection and never together with a
+  submodule; every clash raises, nothing is silently shared or overwritten"""
+  steps = tuple((pick(DECL_KINDS, k), pick(DECL_NAMES, n))
+                for k, n in ((k0, n0), (k1, n1), (k2, n2)))
+  taken = {}
+  clash = False
+  tree = {}
+  y = x
+  for i, (kind, nm) in enumerate(steps):
+    col = None if kind == 'child' else ('params' if kind == 'param' else kind)
+    cols = taken.setdefault(nm, set())
+    if col in cols or None in cols or (col is None and cols):
+      clash = True
+      break
+    cols.add(col)
+    if kind == 'child':
+      tree.setdefault('params', {})[nm] = {'w': 3}
+      tree.setdefault('stats', {})[nm] = {'c': 1}
+      y = y * 3 + 1
+    else:
+      tree.setdefault(col, {})[nm] = (10 if kind == 'param' else 20) + i
+      y = y + tree[col][nm]
+  mod = Decl(steps=steps)
+  try:
+    y0, vs = mod.init_with_output(_KEY, x)
+  except (errors.NameInUseError, ValueError):
+    return clash
+  if clash or plain(vs) != tree or y0 != y:
+    return False
+  y1, upd = mod.apply(vs, x, mutable=True)
+  return y1 == y and plain(upd) == tree and mod.apply(vs, x) == y
+
+
+@with_rng_stub
+def bind_adopts_bound_submodule(x, w1, w2, keep):
+  """bind(v) agrees with apply(v) also when an attribute submodule was taken from
+  another, still alive, bound module: it is re-adopted under the new scope and
+  reads v, not the variables of its former parent"""
+  mod = SetupParent()
+  vs1 = plain(mod.init(_KEY, x))
+  vs1['params']['second']['w'] = w1
+  bm = mod.bind(vs1)
+  enc = bm.second
+  if enc(x) != x * w1 + 1:
+    return False
+  outer = Branch(inner=enc)
+  v2 = {'params': {'inner': {'w': w2}}, 'stats': {'inner': {'c': 1}}}
+  want = x * w2 + 1 + 1
+  if outer.apply(v2, x) != want:
+    return False
+  if not keep:
+    del bm
+  b2 = outer.bind(v2)
+  if b2(x) != want:
+    return False
+  if plain(b2.inner.variables) != {'params': {'w': w2}, 'stats': {'c': 1}}:
+    return False
+  m3, v3 = b2.unbind()
+  if plain(v3) != v2 or m3.apply(v3, x) != want:
+    return False
+  # the former parent is untouched
+  return enc(x) == x * w1 + 1
+
+
 EXPLANATION = (
     'C02: compact parents with <=2 Leaf children whose names are drawn from a pool '
     'containing the automatic names the program itself generates, an own param / '
@@ -366,4 +454,12 @@ def obligations(tier):
          timeout=600, funcs=F, per_path_timeout=60.0),
       Ob('shared_between_parents', shared_between_parents,
          dict(x=I(-3, 3), w=I(-3, 3)), timeout=600, funcs=F, per_path_timeout=60.0),
+      Ob('declaration_sequences', declaration_sequences,
+         dict(k0=I(0, 3), n0=I(0, 1), k1=I(0, 3), n1=I(0, 1), k2=I(0, 3), n2=I(0, 1),
+              x=I(-3, 3)), split=('k0', 'k1'), timeout=600, funcs=F,
+         per_path_timeout=60.0,
+         bounds='3 declarations, kinds %r, names %r' % (DECL_KINDS, DECL_NAMES)),
+      Ob('bind_adopts_bound_submodule', bind_adopts_bound_submodule,
+         dict(x=I(-3, 3), w1=I(-3, 3), w2=I(-3, 3), keep=B()), timeout=600, funcs=F,
+         per_path_timeout=60.0),
   ]
